@@ -575,6 +575,28 @@ def conc_worker(args):
                                                "ops": [x for x in out.splitlines() if x.startswith("iterw-bad")][:3] + [l]})
         res["sample"] = out.splitlines()[-2:]
         return res
+    if kind == "stall":
+        # C09: a thread held inside the maintenance leaves; the writers that filled the channel
+        # meanwhile must all finish (harness/src/conc.rs, run_stall)
+        try:
+            rc, out, err = run(limited([HBIN, "stall", str(seed), str(ncases)]), timeout=300)
+        except subprocess.TimeoutExpired:
+            res["oracle_fail"].append({"case": 0, "verdict": "hang", "ops": [f"mmharness stall {seed} {ncases} did not finish"], "recorded": True})
+            return res
+        for l in out.splitlines():
+            if l.startswith("stall "):
+                f = dict(x.split("=") for x in l.split()[1:] if "=" in x)
+                res["ops"] += int(f["stalled_at"])
+                if f["parked"] == "true" and f["finished_before_release"] == "0":
+                    res["nontrivial"] += 1
+                res["hist"]["stall:parked" if f["parked"] == "true" else "stall:not-parked"] = \
+                    res["hist"].get("stall:parked" if f["parked"] == "true" else "stall:not-parked", 0) + 1
+                if f["bad"] != "0":
+                    res["oracle_fail"].append({"case": int(f["round"]), "verdict": "hang", "recorded": True,
+                                               "ops": [f"# re-run: harness/target/debug/mmharness stall {seed} {ncases}"]
+                                                      + [x for x in out.splitlines() if x.startswith("stall-bad")][:3] + [l]})
+        res["sample"] = out.splitlines()[-2:]
+        return res
     if kind == "miri-conc":
         # real threads inside Miri: data-race detection, use of freed memory, deadlocks, under the
         # schedule Miri picks for this seed (supporting validation of the trusted memory-ordering
@@ -684,7 +706,7 @@ def worker(args):
         return miri_worker(args)
     if args[1].startswith("meta-"):
         return meta_worker(args)
-    if args[1] in ("conc", "iterw"):
+    if args[1] in ("conc", "iterw", "stall"):
         return conc_worker(args)
     (prop, kind, seed, ncases, length, profile, mode, oracle_id) = args
     ops = gen_ops(kind, seed, ncases, length, profile)
